@@ -142,8 +142,15 @@ class SSHChannel(log.Logger):
         if self.extBuf:
             b = self.extBuf
             self.extBuf = []
+            # The entries still to be written are only in b: do not let
+            # writeExtended() close the channel before all of them are out.
+            closing = self.closing
+            self.closing = False
             for type, data in b:
                 self.writeExtended(type, data)
+            self.closing = closing
+            if closing:
+                self.loseConnection()  # try again
 
     def requestReceived(self, requestType, data):
         """
